@@ -505,6 +505,13 @@ impl Sim {
                 self.src_over = true;
                 "unit".into()
             }
+            ["deliver", "many", hs @ ..] => {
+                // several frames are available to the task at once (they arrived in one TCP segment)
+                for h in hs {
+                    self.ws.deliver(In::Msg(Message::Binary(Bytes::from(unhexz(h).expect("hex")))));
+                }
+                "unit".into()
+            }
             ["deliver", "closemany", hs @ ..] => {
                 // the peer's Close, with more of its frames right behind it (sent before it noticed, or
                 // answers that crossed), and then the end of the connection: the wind-down dispatches them
